@@ -83,6 +83,9 @@ impl SnmpPriv for Aes128Key {
         usm: &'b UsmParameters<'b>,
     ) -> SnmpResult<ScopedPdu<'c>> {
         // Get IV
+        if usm.privacy_params.len() != KEY_LENGTH - 8 {
+            return Err(SnmpError::InvalidKey);
+        }
         let mut iv = [0u8; 16];
         iv[..4].clone_from_slice(&(usm.engine_boots as u32).to_be_bytes());
         iv[4..8].clone_from_slice(&(usm.engine_time as u32).to_be_bytes());
